@@ -20,7 +20,7 @@ import (
 )
 
 type layout struct {
-	tab, crlf, blank, comments, trailing, wideBrackets, tightCommas, spaceColon, multiLineRestr, parens, noFinalNewline, leadingBlank bool
+	tab, crlf, blank, comments, trailing, wideBrackets, tightCommas, spaceColon, multiLineRestr, parens, noFinalNewline, leadingBlank, mixedEnds bool
 }
 
 func (l layout) String() string {
@@ -29,7 +29,7 @@ func (l layout) String() string {
 		n string
 		b bool
 	}{{"tab", l.tab}, {"crlf", l.crlf}, {"blank", l.blank}, {"comments", l.comments}, {"trailing", l.trailing}, {"wideBrackets", l.wideBrackets},
-		{"tightCommas", l.tightCommas}, {"spaceColon", l.spaceColon}, {"multiLineRestr", l.multiLineRestr}, {"parens", l.parens}, {"noFinalNewline", l.noFinalNewline}, {"leadingBlank", l.leadingBlank}} {
+		{"tightCommas", l.tightCommas}, {"spaceColon", l.spaceColon}, {"multiLineRestr", l.multiLineRestr}, {"parens", l.parens}, {"noFinalNewline", l.noFinalNewline}, {"leadingBlank", l.leadingBlank}, {"mixedEnds", l.mixedEnds}} {
 		if p.b {
 			on = append(on, p.n)
 		}
@@ -46,6 +46,7 @@ func layouts() []layout {
 		func(l *layout) { l.comments = true }, func(l *layout) { l.trailing = true }, func(l *layout) { l.wideBrackets = true },
 		func(l *layout) { l.tightCommas = true }, func(l *layout) { l.spaceColon = true }, func(l *layout) { l.multiLineRestr = true },
 		func(l *layout) { l.parens = true }, func(l *layout) { l.noFinalNewline = true }, func(l *layout) { l.leadingBlank = true },
+		func(l *layout) { l.mixedEnds = true },
 	}
 	out := []layout{{}}
 	for i := range setters {
@@ -212,6 +213,22 @@ func renderModel(m *openfgav1.AuthorizationModel, l layout) string {
 	if l.crlf {
 		nl = "\r\n"
 	}
+	if l.mixedEnds {
+		// CRLF and LF line ends in one document: CRLF after the 1st, 4th, 7th ... line, LF after the others
+		var sb strings.Builder
+		for i, ln := range w.lines {
+			sb.WriteString(ln)
+			if i == len(w.lines)-1 && l.noFinalNewline {
+				break
+			}
+			if i%3 == 0 {
+				sb.WriteString("\r\n")
+			} else {
+				sb.WriteString("\n")
+			}
+		}
+		return sb.String()
+	}
 	text := strings.Join(w.lines, nl)
 	if !l.noFinalNewline {
 		text += nl
@@ -257,7 +274,7 @@ func TestBoundedB2Layouts(t *testing.T) {
 		depth, width = 2, 2
 	}
 	r := &boundedReport{Property: "C03", Check: "B2-layouts", Function: "ParseDSL / TransformDSLToProto",
-		Scope: fmt.Sprintf("B2: expressible B1 models (operator depth <= %d, root arity <= %d) plus a model with keyword-named and dotted/slashed/dashed identifiers, rendered by an independent grammar-driven renderer in every layout of the catalogue taken one and two at a time (tabs, CRLF, blank lines, full-line comments, trailing comments, spaces inside brackets, tight commas, space before colon, restrictions over several lines, redundant parentheses, no final newline, leading blank line)", depth, width), Exhaustive: true}
+		Scope: fmt.Sprintf("B2: expressible B1 models (operator depth <= %d, root arity <= %d) plus a model with keyword-named and dotted/slashed/dashed identifiers, rendered by an independent grammar-driven renderer in every layout of the catalogue taken one and two at a time (tabs, CRLF, blank lines, full-line comments, trailing comments, spaces inside brackets, tight commas, space before colon, restrictions over several lines, redundant parentheses, no final newline, leading blank line, CRLF and LF line ends mixed in one document)", depth, width), Exhaustive: true}
 	models := b2Models(depth, width)
 	for mi, m := range models {
 		want := modelDigest(m, true)
